@@ -13,7 +13,9 @@ import (
 	"os"
 	"os/exec"
 	"path/filepath"
+	"regexp"
 	"runtime"
+	"strconv"
 	"strings"
 	"sync"
 	"syscall"
@@ -501,8 +503,8 @@ func TestC17(t *testing.T) {
 	}
 	r := ev.Start(t, "C17", "exploration")
 	defer r.Finish()
-	r.Rule("schedules on real named pipes, unix and tcp stream sockets (1-4 concurrent connections, one-shot and continuous), unixgram and udp sockets (1-3 senders, whole-line datagrams) and stdin (re-exec'd helper): random chunking incl. cuts inside a line and inside CRLF, random delays, unterminated final lines, closes, and cancellation before any data / mid-way / after everything. Offline check of the delivery log against the write log: per writer the delivered lines equal the written lines in order plus the tail once (complete runs) or a prefix of them (cancelled runs); no delivered line contains data of two writers; the output channel closes after the writer closes (pipes, one-shot) or after cancellation. Non-trivial: schedule with >=2 writers or a tail or a mid-way cancel; distinct by scenario.")
-	r.Assume("a poll timer is emulated by broadcasting the stream waker every 0.5ms", "datagram senders pace their sends (loopback UDP is lossless below receive-buffer overflow)", "'ends' is checked with a 20s watchdog; its firing is a violation only together with the goroutine dump showing the stream parked")
+	r.Rule("schedules on real named pipes, unix and tcp stream sockets (1-4 concurrent connections, one-shot and continuous), unixgram and udp sockets (1-3 senders, whole-line datagrams) and stdin (re-exec'd helper), plus two special schedules (a stream connection cancelled while a single small write — many lines + tail — is still being handed to a slow consumer: everything read must come out; one unixgram sender building a newline-free backlog up to the read-buffer size followed by a large datagram of lines): random chunking incl. cuts inside a line and inside CRLF, random delays, unterminated final lines, closes, and cancellation before any data / mid-way / after everything. Offline check of the delivery log against the write log: per writer the delivered lines equal the written lines in order plus the tail once (complete runs) or a prefix of them (cancelled runs); no delivered line contains data of two writers; the output channel closes after the writer closes (pipes, one-shot) or after cancellation. Non-trivial: schedule with >=2 writers or a tail or a mid-way cancel; distinct by scenario.")
+	r.Assume("a poll timer is emulated by broadcasting the stream waker every 0.5ms", "datagram senders pace their sends (loopback UDP is lossless below receive-buffer overflow)", "a single write of < 3 KiB on a unix / loopback TCP stream socket is queued as one kernel buffer, so a read (128 KiB buffer) that returns any of it returns all of it", "unixgram is reliable (a sender blocks rather than lose a datagram)", "'ends' is checked with a 20s watchdog; its firing is a violation only together with the goroutine dump showing the stream parked")
 	dir, _ := os.MkdirTemp(ev.Scratch(), "c17")
 	defer os.RemoveAll(dir)
 	per := ev.Pick(60, 1500)
@@ -549,6 +551,41 @@ func TestC17(t *testing.T) {
 			}
 		})
 	}
+	// special schedules (see the functions): cancellation while a chunk that
+	// was read is still being handed over; a large datagram behind a backlog
+	bufSize := 131072
+	if b, err := os.ReadFile(filepath.Join(ev.Repo(), "internal/tailer/logstream/logstream.go")); err == nil {
+		if m := regexp.MustCompile(`defaultReadBufferSize\s*=\s*(\d+)`).FindSubmatch(b); m != nil {
+			if n, _ := strconv.Atoi(string(m[1])); n > 4096 {
+				bufSize = n
+			}
+		}
+	}
+	ev.Parallel(ev.Pick(40, 1000), 8, func(i int) {
+		g := rng.Sub(700000 + i)
+		var o outcome
+		name := ""
+		switch i % 4 {
+		case 0, 1:
+			kind := []string{"unix", "tcp"}[i%2]
+			name = "cancel-during-delivery-" + kind
+			o = cancelDuringDelivery(dir, 500000+i, g, kind)
+		default:
+			name = "datagram-backlog"
+			o = datagramBacklog(dir, 500000+i, g, bufSize)
+		}
+		r.Eval(1)
+		r.Count("schedules_"+name, 1)
+		if o.what != "" {
+			if o.inconc {
+				r.Inconclusive(o.what)
+			} else {
+				r.Violation(name+"-"+cls(o.what), map[string]any{"schedule": name, "what": o.what, "delivered": o.got})
+			}
+			return
+		}
+		r.Distinct(fmt.Sprint(name, i))
+	})
 	for i := 0; i < ev.Pick(8, 150); i++ {
 		g := rng.Sub(900000 + i)
 		s := genScenario(g, "stdin")
@@ -564,6 +601,201 @@ func TestC17(t *testing.T) {
 			}
 		}
 	}
+}
+
+// streamCase sets up one stream of the given kind with its own poll timer and a
+// consumer that takes perLine for every delivered line.
+type streamCase struct {
+	dial   string
+	cancel context.CancelFunc
+	closed chan struct{}
+	mu     sync.Mutex
+	got    []string
+	stop   func()
+}
+
+func (c *streamCase) snapshot() []string {
+	c.mu.Lock()
+	defer c.mu.Unlock()
+	return append([]string{}, c.got...)
+}
+
+func newStreamCase(dir string, idx int, kind string, perLine time.Duration) (*streamCase, string) {
+	c := &streamCase{closed: make(chan struct{})}
+	var target string
+	switch kind {
+	case "unix", "unixgram":
+		c.dial = filepath.Join(dir, fmt.Sprintf("x%d", idx))
+		target = kind + "://" + c.dial
+	default:
+		c.dial = freePort(kind)
+		target = kind + "://" + c.dial
+	}
+	ctx, cancel := context.WithCancel(context.Background())
+	c.cancel = cancel
+	wk := fsdrv.NewStepWaker()
+	tick := make(chan struct{})
+	go func() {
+		for {
+			select {
+			case <-tick:
+				return
+			case <-time.After(500 * time.Microsecond):
+				wk.Broadcast()
+			}
+		}
+	}()
+	c.stop = func() { cancel(); close(tick); os.Remove(c.dial) }
+	var wg sync.WaitGroup
+	ls, err := logstream.New(ctx, &wg, wk, target, logstream.OneShotDisabled)
+	for try := 0; err != nil && strings.Contains(err.Error(), "address already in use") && try < 8 && kind == "tcp"; try++ {
+		c.dial = freePort(kind)
+		target = kind + "://" + c.dial
+		ls, err = logstream.New(ctx, &wg, wk, target, logstream.OneShotDisabled)
+	}
+	if err != nil {
+		c.stop()
+		return nil, "logstream.New: " + err.Error()
+	}
+	go func() {
+		for l := range ls.Lines() {
+			c.mu.Lock()
+			c.got = append(c.got, l.Line)
+			c.mu.Unlock()
+			if perLine > 0 {
+				time.Sleep(perLine)
+			}
+		}
+		close(c.closed)
+	}()
+	return c, ""
+}
+
+// cancelDuringDelivery: one connection writes, in ONE small write (a single
+// kernel buffer: a read that returns any of it returns all of it), many short
+// lines plus an unterminated tail and keeps the connection open; the consumer
+// is slow; the stream is cancelled after k of the lines came out. Having read
+// the write, the stream must deliver all of it — the remaining lines and the
+// tail — before its output ends.
+func cancelDuringDelivery(dir string, idx int, g *ev.RNG, kind string) outcome {
+	c, bad := newStreamCase(dir, idx, kind, time.Duration(g.Range(50, 300))*time.Microsecond)
+	if c == nil {
+		return outcome{what: bad, inconc: true}
+	}
+	defer c.stop()
+	var conn net.Conn
+	for try := 0; try < 200 && conn == nil; try++ {
+		if cc, err := net.Dial(kind, c.dial); err == nil {
+			conn = cc
+		} else {
+			time.Sleep(time.Millisecond)
+		}
+	}
+	if conn == nil {
+		return outcome{what: "dial failed (harness)", inconc: true}
+	}
+	defer conn.Close()
+	n := g.Range(20, 120)
+	var want []string
+	var b strings.Builder
+	for i := 0; i < n && b.Len() < 2800; i++ {
+		l := fmt.Sprintf("w0:%d:%s", i, strings.Repeat("x", g.Intn(12)))
+		want = append(want, l)
+		b.WriteString(l + "\n")
+	}
+	want = append(want, "w0:tail")
+	b.WriteString("w0:tail")
+	if _, err := conn.Write([]byte(b.String())); err != nil {
+		return outcome{what: "write failed (harness): " + err.Error(), inconc: true}
+	}
+	k := g.Range(1, len(want)-2)
+	if !fsdrv.Await(func() bool { return len(c.snapshot()) >= k }, watchdog) {
+		return outcome{what: fmt.Sprintf("only %d of %d written lines were delivered before the watchdog\n%s", len(c.snapshot()), len(want)-1, dump()), got: c.snapshot()}
+	}
+	c.cancel()
+	select {
+	case <-c.closed:
+	case <-time.After(watchdog):
+		return outcome{what: "cancelled during delivery: the stream's output did not end\n" + dump(), got: c.snapshot()}
+	}
+	got := c.snapshot()
+	if strings.Join(got, "\n") != strings.Join(want, "\n") {
+		return outcome{what: fmt.Sprintf("cancelled after %d lines of a %d-byte single write had been delivered: %d lines delivered, %d written incl. the unterminated tail (last delivered %q)", k, b.Len(), len(got), len(want), got[len(got)-1]), got: got}
+	}
+	return outcome{got: got, closedOK: true}
+}
+
+// datagramBacklog: one unixgram sender (reliable: the sender blocks when the
+// receive queue is full) sends many datagrams without a newline — the reader
+// accumulates them as one unterminated line — and then a large datagram full
+// of lines. The delivered lines are the lines of the concatenated payloads.
+func datagramBacklog(dir string, idx int, g *ev.RNG, bufSize int) outcome {
+	c, bad := newStreamCase(dir, idx, "unixgram", 0)
+	if c == nil {
+		return outcome{what: bad, inconc: true}
+	}
+	defer c.stop()
+	conn, err := net.Dial("unixgram", c.dial)
+	if err != nil {
+		return outcome{what: "dial failed (harness): " + err.Error(), inconc: true}
+	}
+	defer conn.Close()
+	var all strings.Builder
+	send := func(p string) bool {
+		all.WriteString(p)
+		_, err := conn.Write([]byte(p))
+		return err == nil
+	}
+	backlog := g.Range(bufSize/2, bufSize-2000)
+	for all.Len() < backlog {
+		if !send("w0:" + strings.Repeat("b", g.Range(500, 3000))) {
+			return outcome{what: "datagram send failed (harness)", inconc: true}
+		}
+	}
+	var big strings.Builder
+	big.WriteString("end-of-backlog\n")
+	size := g.Range(2000, 60000)
+	for i := 0; big.Len() < size; i++ {
+		big.WriteString(fmt.Sprintf("w0:%d:%s\n", i, strings.Repeat("y", g.Intn(60))))
+	}
+	if !send(big.String()) || !send("w0:last\n") {
+		return outcome{what: "datagram send failed (harness)", inconc: true}
+	}
+	want := strings.Split(strings.TrimSuffix(all.String(), "\n"), "\n")
+	if !fsdrv.Await(func() bool { g := c.snapshot(); return len(g) > 0 && g[len(g)-1] == "w0:last" }, watchdog) {
+		got := c.snapshot()
+		return outcome{what: fmt.Sprintf("after %d bytes of newline-free datagrams and a %d-byte datagram of lines: %d lines delivered, %d written; the last line never arrived", backlog, big.Len(), len(got), len(want)), got: clipLines(got)}
+	}
+	got := c.snapshot()
+	if len(got) != len(want) {
+		return outcome{what: fmt.Sprintf("after %d bytes of newline-free datagrams and a %d-byte datagram of lines: %d lines delivered, %d written", backlog, big.Len(), len(got), len(want)), got: clipLines(got)}
+	}
+	for i := range got {
+		if got[i] != want[i] {
+			return outcome{what: fmt.Sprintf("line %d delivered as %.80q, written %.80q", i, got[i], want[i]), got: clipLines(got)}
+		}
+	}
+	c.cancel()
+	select {
+	case <-c.closed:
+	case <-time.After(watchdog):
+		return outcome{what: "cancelled after everything: the stream's output did not end\n" + dump()}
+	}
+	return outcome{got: nil, closedOK: true}
+}
+
+func clipLines(ls []string) []string {
+	var out []string
+	for i, l := range ls {
+		if i >= 6 && i < len(ls)-3 {
+			continue
+		}
+		if len(l) > 100 {
+			l = l[:100] + "..."
+		}
+		out = append(out, l)
+	}
+	return out
 }
 
 func cls(w string) string {
